@@ -585,7 +585,9 @@ func (r *rsStream) Split(data io.Reader, dst []io.Writer, size int64) error {
 
 	// Pad data to r.Shards*perShard.
 	paddingSize := (int64(r.r.totalShards) * perShard) - size
-	data = io.MultiReader(data, io.LimitReader(zeroPaddingReader{}, paddingSize))
+	// Exactly 'size' bytes are taken from data; only the remainder is zero padding.
+	src := &io.LimitedReader{R: data, N: size}
+	data = io.MultiReader(src, io.LimitReader(zeroPaddingReader{}, paddingSize))
 
 	// Split into equal-length shards and copy.
 	for i := range dst {
@@ -596,6 +598,10 @@ func (r *rsStream) Split(data io.Reader, dst []io.Writer, size int64) error {
 		if n != perShard {
 			return ErrShortData
 		}
+	}
+	if src.N != 0 {
+		// The source ended before 'size' bytes were read.
+		return ErrShortData
 	}
 
 	return nil
